@@ -26,6 +26,9 @@ mod c17;
 mod c15;
 #[path = "c03.rs"]
 mod c03;
+#[cfg(feature = "quic")]
+#[path = "quicup.rs"]
+mod quicup;
 
 pub async fn main(monitor: String) -> Result<(), easy_error::Terminator> {
     let args = util::Args::parse();
@@ -41,6 +44,8 @@ pub async fn main(monitor: String) -> Result<(), easy_error::Terminator> {
         "c17" => c17::run(&args).await,
         "c15" => c15::run(&args).await,
         "c03" => c03::run(&args).await,
+        #[cfg(feature = "quic")]
+        "quicup" => quicup::run(&args).await,
         other => {
             eprintln!("unknown monitor {}", other);
             std::process::exit(3);
